@@ -39,6 +39,31 @@ def _const_index_on_field_keys(e: ast.AST) -> Optional[int]:
     return None
 
 
+def _fields_loop(lp: ast.For):
+    """(key variable, value variable or None, position variable or None, position start) for a loop over the Sid's own
+    field dictionary in one of its spellings; None for any other loop"""
+    it = lp.iter
+    posvar, pstart = None, None
+    tgt = lp.target
+    if isinstance(it, ast.Call) and dotted(it.func) == "enumerate" and it.args and isinstance(tgt, ast.Tuple) and len(tgt.elts) == 2:
+        pstart = 0
+        if len(it.args) > 1 and isinstance(it.args[1], ast.Constant):
+            pstart = it.args[1].value
+        for k in it.keywords:
+            if k.arg == "start" and isinstance(k.value, ast.Constant):
+                pstart = k.value.value
+        if not isinstance(tgt.elts[0], ast.Name):
+            return None
+        posvar = tgt.elts[0].id
+        it, tgt = it.args[0], tgt.elts[1]
+    txt = norm(it)
+    if txt == "self._fields.items()" and isinstance(tgt, ast.Tuple) and len(tgt.elts) == 2 and all(isinstance(e, ast.Name) for e in tgt.elts):
+        return tgt.elts[0].id, tgt.elts[1].id, posvar, pstart
+    if txt in ("self._fields", "self._fields.keys()") and isinstance(tgt, ast.Name):
+        return tgt.id, None, posvar, pstart
+    return None
+
+
 def rule_nav(ctx: Ctx) -> RuleResult:
     res = RuleResult("R-NAV")
     p = ctx.p
@@ -63,38 +88,51 @@ def rule_nav(ctx: Ctx) -> RuleResult:
     gflow = flow_of(g.node)
     gcfg = cfg_of(g.node)
     key_p = g.params[1] if len(g.params) > 1 else "key"
-    loops = [n for n in own_nodes(g.node) if isinstance(n, ast.For) and norm(n.iter) == "self._fields.items()"]
+    loops = [(n, sh) for n in own_nodes(g.node) if isinstance(n, ast.For) for sh in [_fields_loop(n)] if sh is not None]
     problems = []
     if len(loops) != 1:
         problems.append("no single loop over self._fields.items()")
     else:
-        lp = loops[0]
-        tnames = [norm(t) for t in (lp.target.elts if isinstance(lp.target, ast.Tuple) else [lp.target])]
+        lp, (kvar, vvar, posvar, pstart) = loops[0]
         stores = [n for n in ast.walk(lp) if isinstance(n, ast.Assign) and isinstance(n.targets[0], ast.Subscript)]
         rets_in = [n for n in ast.walk(lp) if isinstance(n, ast.Return)]
-        if len(stores) != 1 or len(rets_in) != 1 or len(tnames) != 2:
+        if len(rets_in) != 1:
             problems.append("loop body is not one store and one return")
         else:
-            st, rt = stores[0], rets_in[0]
-            tgt = st.targets[0]
-            if not (norm(tgt.slice) == tnames[0] and norm(st.value) == tnames[1] and isinstance(tgt.value, ast.Name)):
-                problems.append(f"`{norm(st)}` does not copy the current (key, value) pair")
+            rt = rets_in[0]
+            tests = ctx.ef._dominating_tests(gcfg, rt)
+            if not any(isinstance(t, ast.Compare) and isinstance(t.ops[0], ast.Eq) and {norm(t.left), norm(t.comparators[0])} == {
+                    kvar, key_p} and lab == "true" for t, lab in tests):
+                problems.append(f"the return is not under `{kvar} == {key_p}`")
+            v = rt.value
+            built = isinstance(v, ast.Call) and dotted(v.func) == "Sid" and not v.args and len(v.keywords) == 1 and v.keywords[0].arg == "fields"
+            if not built:
+                problems.append(f"the result is not Sid(fields=<the accumulated prefix>) (`{norm(rt)}`)")
+            elif len(stores) == 1 and vvar is not None:
+                # form 1: the pairs are copied one by one into a fresh dictionary
+                st = stores[0]
+                tgt = st.targets[0]
+                if not (norm(tgt.slice) == kvar and norm(st.value) == vvar and isinstance(tgt.value, ast.Name)):
+                    problems.append(f"`{norm(st)}` does not copy the current (key, value) pair")
+                else:
+                    acc = tgt.value.id
+                    sn, rn = gcfg.node_of(st), gcfg.node_of(rt)
+                    if not gcfg.dominates(sn.id, rn.id):
+                        problems.append("the pair is stored after the return test: the requested key itself would be missing")
+                    if norm(v.keywords[0].value) != acc:
+                        problems.append(f"the result is not Sid(fields=<the accumulated prefix>) (`{norm(rt)}`)")
+                    ds = [d for d in gflow.all_defs if d.var == acc and d.kind == "assign"]
+                    if not (len(ds) == 1 and isinstance(ds[0].value, ast.Dict) and not ds[0].value.keys):
+                        problems.append("the accumulator is not a fresh empty dict")
+            elif not stores and posvar is not None:
+                # form 2: the prefix is cut out of the items by position (the position counts the requested key in)
+                want = posvar if pstart == 1 else (f"{posvar} + 1" if pstart == 0 else None)
+                txt = norm(inline_locals(g, v.keywords[0].value, rt))
+                if want is None or txt not in (f"dict(islice(self._fields.items(), {want}))", f"dict(itertools.islice(self._fields.items(), {want}))",
+                                               f"dict(list(self._fields.items())[:{want}])"):
+                    problems.append(f"the result is not the prefix of the fields up to and including the key (`{txt}`)")
             else:
-                acc = tgt.value.id
-                sn, rn = gcfg.node_of(st), gcfg.node_of(rt)
-                if not gcfg.dominates(sn.id, rn.id):
-                    problems.append("the pair is stored after the return test: the requested key itself would be missing")
-                tests = ctx.ef._dominating_tests(gcfg, rt)
-                if not any(isinstance(t, ast.Compare) and isinstance(t.ops[0], ast.Eq) and {norm(t.left), norm(t.comparators[0])} == {
-                        tnames[0], key_p} and lab == "true" for t, lab in tests):
-                    problems.append(f"the return is not under `{tnames[0]} == {key_p}`")
-                v = rt.value
-                if not (isinstance(v, ast.Call) and dotted(v.func) == "Sid" and not v.args and len(v.keywords) == 1
-                        and v.keywords[0].arg == "fields" and norm(v.keywords[0].value) == acc):
-                    problems.append(f"the result is not Sid(fields=<the accumulated prefix>) (`{norm(rt)}`)")
-                ds = [d for d in gflow.all_defs if d.var == acc and d.kind == "assign"]
-                if not (len(ds) == 1 and isinstance(ds[0].value, ast.Dict) and not ds[0].value.keys):
-                    problems.append("the accumulator is not a fresh empty dict")
+                problems.append("loop body is not one store and one return")
     guards = [r for r in _rets(g) if _is_empty_sid(r.value)]
     if len(guards) < 2:
         problems.append("the untyped / unknown-key fallbacks (empty Sid) are missing")
